@@ -191,6 +191,7 @@ func main() {
 	tier := flag.String("tier", "quick", "quick|thorough")
 	out := flag.String("out", "", "output directory")
 	replay := flag.String("replay", "", "replay file (JSON with kind/in or rules/start)")
+	fwdBin := flag.String("forwarder", "", "path of the real forwarder binary (end-to-end cases)")
 	flag.Parse()
 	if err := os.MkdirAll(*out, 0o755); err != nil {
 		panic(err)
@@ -209,6 +210,10 @@ func main() {
 		ShardSize     int            `json:"shard_size"`
 		SamplesParser []string       `json:"samples_parser"`
 		SamplesApply  []acaseJSON    `json:"samples_applier"`
+		E2ECases      int            `json:"e2e_cases"`
+		E2EKinds      map[string]int `json:"e2e_kinds"`
+		E2EError      string         `json:"e2e_error"`
+		SamplesE2E    []any          `json:"samples_e2e"`
 	}
 	m := meta{ActionHist: map[string]int{}, RuleLenHist: map[string]int{}, ShardSize: 500}
 
@@ -332,6 +337,29 @@ func main() {
 	}
 	writeJSONL(*out, "acases.jsonl", aj)
 	m.SamplesApply = []acaseJSON{aj[len(aj)-1].(acaseJSON), aj[len(aj)/2].(acaseJSON)}
+
+	// ---- end-to-end stream (real binary)
+	if *fwdBin != "" {
+		configs := 6
+		if *tier == "thorough" {
+			configs = 40
+		}
+		ec, ej, err := runE2E(*fwdBin, r, configs)
+		if err != nil {
+			m.E2EError = err.Error()
+		}
+		m.E2ECases = len(ec)
+		m.E2EKinds = map[string]int{}
+		for _, j := range ej {
+			m.E2EKinds[j.(e2eCaseJSON).Kind]++
+		}
+		if len(ec) > 0 {
+			writeShard(*out, "ecases", 0, "ecase", "ecase_model_ok", "ecase_prop_ok", ec)
+			m.Shards = append(m.Shards, "ecases_000.v")
+			writeJSONL(*out, "ecases.jsonl", ej)
+			m.SamplesE2E = []any{ej[0], ej[len(ej)-1]}
+		}
+	}
 	writeMeta(*out, m)
 }
 
